@@ -547,6 +547,9 @@ func quoteIdentifier(sb *strings.Builder, name string) {
 	for _, b := range []byte(name) {
 		if b == '"' {
 			sb.WriteString(quoteEscape)
+		} else if b == '\\' {
+			// Clickhouse treats backslash as an escape character in quoted identifiers.
+			sb.WriteString(`\\`)
 		} else {
 			sb.WriteByte(b)
 		}
@@ -1055,6 +1058,9 @@ func quoteSQLString(sb *strings.Builder, s string) {
 	for _, b := range []byte(s) {
 		if b == '\'' {
 			sb.WriteString("''")
+		} else if b == '\\' {
+			// Clickhouse treats backslash as an escape character in string literals.
+			sb.WriteString(`\\`)
 		} else {
 			sb.WriteByte(b)
 		}
